@@ -26,6 +26,12 @@ import json,sys
 P,X,d0,d1,suite,rc,D,OUT=sys.argv[1:]
 try: meta=json.load(open(f"{OUT}/{X}_meta.json"))
 except Exception: meta={}
+import os
+oldp=f"/verif/seeded/{P}-{X}/meta.json"
+if suite=="skipped" and os.path.exists(oldp):
+    try:
+        o=json.load(open(oldp)); suite=o["confirmed"]["suite_with_change"]+" (from the first confirmation run)" if "skipped" not in o["confirmed"]["suite_with_change"] and "first confirmation" not in o["confirmed"]["suite_with_change"] else o["confirmed"]["suite_with_change"]
+    except Exception: pass
 chk=open(f"{D}/check.out").read()
 summary=[l for l in chk.split("\n") if l.startswith(P+" [")]
 viol=[l for l in chk.split("\n") if l.startswith("VIOLATION")]
